@@ -8,7 +8,7 @@ HOOK_COMMITS = subprocess.check_output(
 LEVEL_TEXT = {
  "C01": "Seeded deterministic simulation: the real canister is driven through heartbeats/replies by a simulated block source over fork-heavy histories (all script kinds, prefix address pairs, re-mined transactions, same-block spends, slicing, upgrades); after every event every wallet address is queried (page-size knob and the real 1000 limit) and compared with an independent ledger replay at the tip the response names. Sampling, not proof.",
  "C02": "Seeded simulation with per-block difficulty assignments (hook H5); after every event get_blockchain_info, unfiltered get_utxos, get_balance and get_block_headers (and, on request events, the fee percentiles) are compared with a brute-force best path of the model fork tree.",
- "C03": "Seeded simulation; every observed anchor advance must be allowed by an independent evaluation of the stability rule on the model tree as it stood (incl. scripted two-branch races of up to 1700 blocks reaching the testnet/regtest depth bound), no due advance may be left undone by a completed heartbeat, stable height/hashes never regress, forks vanish only at the advance; includes set_config threshold changes.",
+ "C03": "Seeded simulation; every observed anchor advance must be allowed by an independent evaluation of the stability rule on the model tree as it stood (incl. scripted two-branch races of up to 1700 blocks reaching the testnet/regtest depth bound), no due advance may be left undone by a completed heartbeat, stable height never regresses and the stable record (header store) holds, at every stable height, exactly the block that stabilised there; forks vanish only at the advance; includes set_config threshold changes, also while the anchor's ingestion is paused (scripted opening).",
  "C04": "Seeded simulation; for every c in 0..=len+2 the response of get_utxos(min_confirmations=c) is compared with the model's cut block (depth / competitor depth on the model tree) and the ledger there; fork-free sanity oracle.",
  "C05": "Seeded simulation; cross-endpoint equality get_balance == sum(get_utxos all pages) for all addresses (incl. malformed / wrong network) and all c, query vs update variants, at every check point including paused ingestion.",
  "C06": "Seeded simulation with stateful client sessions whose page requests are interleaved with block arrivals, fork growth, stabilisation and upgrades; per-session history check against the ledger at the first tip; arbitrary page blobs never trap.",
@@ -18,9 +18,9 @@ LEVEL_TEXT = {
  "C10": "Seeded simulation with an adversarial block source (duplicates, orphans, stable-only parents, wrong order, truncated/garbage bytes, invalid headers/bodies, garbage/short/padded announced headers); the canister's unstable set must equal the model's admission verdicts, counters move by exactly one on a reject, no heartbeat traps.",
  "C13": "Seeded simulation of the fetch protocol: replies withheld while further heartbeats/upgrades run, page scripts 0..255, rejects at every step; single outstanding request, request grammar, bit-identical reassembly, no double application, bounded liveness after faults stop.",
  "C14": "Seeded simulation with config toggles, wrong-network requests and announced-header histories; refusal iff the model's gate predicate says so, refusals have no effect, get_config/get_blockchain_info always answer.",
- "C15": "Seeded simulation with fee-paying legacy/segwit transactions, reorgs, eager/lazy mode, upgrades; answers compared with nearest-rank percentiles of the model's best-chain window (exact in lazy mode, candidate set in eager mode).",
- "C16": "Seeded simulation of paid calls through the cycles seam (hook H3) with attached amounts around the maximum, instruction counter values around the cap (hook H2), fee tables changed mid-run, request-level errors, and the real ic-cdk-bitcoin-canister cost_* amounts.",
- "C19": "Seeded simulation of send_transaction with well-formed, truncated, extended, bit-flipped and prefixed payloads under access/network configurations; forwarded payload recorded at the call seam and compared with a strict decode/re-encode oracle.",
+ "C15": "Seeded simulation with fee-paying legacy/segwit transactions, reorgs, eager/lazy mode, upgrades; answers compared with nearest-rank percentiles of the model's best-chain window (exact in lazy mode; in eager mode exactly the value cached by the message that made the block the best tip, otherwise a window of the current tip).",
+ "C16": "Seeded simulation of paid calls through the cycles seam (hook H3) with attached amounts around the maximum, instruction counter values around the cap (hook H2), fee tables changed mid-run, request-level errors, and the real ic-cdk-bitcoin-canister cost_* amounts in both spellings of the network.",
+ "C19": "Seeded simulation of send_transaction with well-formed (incl. repeated, same-txid-other-witness, amounts up to 2^64), truncated, extended, bit-flipped and prefixed payloads under access/network configurations; forwarded payload recorded at the call seam and compared with a strict decode/re-encode oracle.",
  "C20": "Seeded simulation over fork-heavy histories with discarded forks (incl. forks of 100+ blocks discarded at once), shared transactions, announced headers and upgrades; the canister's bookkeeping (read through serde of its pub state and a second handle on the block cache) must equal what the model tree requires after every event.",
  "C11": "Seeded simulation; header admission through the real heartbeat path (blocks and announced headers) compared with an independent implementation of the consensus header rules (median-time-past, +2h, max target, work, required target incl. retarget/BIP94/min-difficulty walk-back) on regtest (real proof of work), testnet4 and mainnet (synthetic proof of work, hook H6).",
  "C17": "Seeded simulation of the real watchdog round (fetch via ic-http mock transport + transforms, storage, health, api-access synchronisation) against stub explorers with failures and a stub canister with failing calls; decision compared with an independent model on the latest round only; order independence by permutation.",
